@@ -1601,6 +1601,36 @@ def f_reconnect_after_close():
     return state == "CLOSED" and not left, f"state {state}; tasks of the client alive 0.1 s after close() returned: {left}"
 
 
+def _script(name, timeout=120):
+    """run a stored reproduction script (tools/repros/) against the tree under test: exit 0 = the property holds on its scenario"""
+    import subprocess
+    here = os.path.dirname(os.path.abspath(__file__))
+    r = subprocess.run([sys.executable, os.path.join(here, "repros", name), REPO], stdout=subprocess.PIPE, stderr=subprocess.STDOUT, text=True, timeout=timeout)
+    lines = [l for l in r.stdout.strip().splitlines() if l.strip()]
+    return r.returncode == 0, " | ".join(lines[-3:])[:600]
+
+
+@finding("C14/task-alive/connect-after-close-window", "C14")
+def f_connect_window():
+    """connect() waits 10 ms after cancelling the old receive task and then started the new receive and seeding tasks without looking at the
+    state again: a close() from the receive callback returns inside that window (real sockets, build_network_map, slow DISCONNECTED callback,
+    the application's own connect())"""
+    return _script("C14_connect_window.py")
+
+
+@finding("C14/task-alive/cancellation-retried", "C14")
+def f_cancel_retried():
+    """close() cancels the reconnect task while its connect() waits for the old receive task: the CancelledError was turned into an
+    AssertionError, which the retry loop retried — the task survived close() by half a second"""
+    return _script("C14_cancel_retried.py")
+
+
+@finding("C12/delivery/non-utf8-bytes-dropped", "C12")
+def f_non_utf8():
+    """the text clients deleted bytes that are not UTF-8 from a line before decoding it: a damaged line was delivered as an intact sentence"""
+    return _script("C12_non_utf8.py")
+
+
 def run(keys=None):
     out = {}
     for k, (prop, fn) in FINDINGS.items():
